@@ -374,6 +374,33 @@ func (c *Ctx) lookupLocal(env *SpecEnv, name string) (Val, bool) {
 			}
 		}
 	}
+	// `inscope` assertions: a variable declared in a block that does not dominate the
+	// call site but has a single definition that was executed on the way (the assertion
+	// guards its use with the condition under which that block runs)
+	if best == nil && env.soft {
+		var only ssa.Value
+		ambiguous := false
+		for _, b := range fr.fn.Blocks {
+			for _, in := range b.Instrs {
+				if x, ok := in.(*ssa.DebugRef); ok && !x.IsAddr {
+					if id, ok := x.Expr.(*ast.Ident); ok && id.Name == name {
+						if ov, isVar := x.Object().(*types.Var); !isVar || ov.IsField() {
+							continue
+						}
+						if only != nil && only != x.X {
+							ambiguous = true
+						}
+						only = x.X
+					}
+				}
+			}
+		}
+		if only != nil && !ambiguous {
+			if v, ok := fr.vals[only]; ok {
+				return v, true
+			}
+		}
+	}
 	if best == nil {
 		return Val{}, false
 	}
